@@ -192,6 +192,14 @@ def history_search(case):
             events.append(("set", "gemini", "tv_ova" if m0.gemini != "tv_ova" else "mi"))
     else:
         events += [("set",) + e for e in SET_EVENTS["Kauri"]]
+        if y1 is None:
+            events.append(("set", "kernel", "rbf" if m0.kernel != "rbf" else "linear"))
+    # every remaining model-specific hyperparameter gets one alternative value (a value remembered from an earlier fit or from construction
+    # must not survive set_params)
+    for par, alt in (("reg", 0.7), ("base_kernel", "rbf"), ("n_hidden_dim", 3), ("M", 2.0), ("temperature", 0.5), ("n_cuts", 2),
+                     ("max_features", 1), ("max_leaves", 3), ("min_samples_split", 3)):
+        if par in m0.get_params(deep=False) and m0.get_params(deep=False)[par] != alt:
+            events.append(("set", par, alt))
     where = dict(estimator=name, spec=str(SPECS[name][si]))
     v = []
     seen_kinds = set()
